@@ -12,8 +12,10 @@ from .serial_rec import run_life
 NL = 4
 
 
-def job(j, hp=()):
-    return [";@pause" if (q + 1) in hp and j == 1 else "G1 X%d" % (10 * j + q + 1) for q in range(NL)]
+def job(j, hp=(), rel=False):
+    """Absolute jobs: 'G1 X<id>'.  Relative jobs (after a G91 preamble): every line moves one unit, the id rides on F."""
+    fmt = "G1 X1 F%d" if rel else "G1 X%d"
+    return [";@pause" if (q + 1) in hp and j == 1 else fmt % ((1000 if rel else 0) + 10 * j + q + 1) for q in range(NL)]
 
 
 def scenario(rng):
@@ -40,12 +42,25 @@ def scenario(rng):
     for k in range(20):
         if rng.random() < 0.2:
             holds[k] = rng.randint(0, 10)
-    return {"hp": list(hp), "actions": acts, "corrupt": corrupt, "holds": holds}
+    return {"hp": list(hp), "actions": acts, "corrupt": corrupt, "holds": holds, "rel": rng.random() < 0.5}
+
+
+# finding F19: relative job, one corrupted line, pause after the resend -> the restore move of resume() names a position one
+# unit beyond where the firmware is
+F19_WITNESSES = [
+    {"hp": [], "actions": [{"when": "ntx", "n": 5, "do": "pause"}, {"when": "paused", "do": "resume"}, {"when": "idle", "do": "start"}],
+     "corrupt": [2], "holds": {}, "rel": True},
+    {"hp": [], "actions": [{"when": "ntx", "n": 4, "do": "pause"}, {"when": "paused", "do": "resume"}, {"when": "idle", "do": "start"}],
+     "corrupt": [3], "holds": {}, "rel": True},
+]
 
 
 def _run(sc):
-    t = run_life([job(1, sc["hp"]), job(2)], sc["actions"], corrupt=sc["corrupt"], holds={int(k): v for k, v in sc["holds"].items()})
+    rel = bool(sc.get("rel"))
+    t = run_life([job(1, sc["hp"], rel), job(2, (), rel)], sc["actions"], corrupt=sc["corrupt"],
+                 holds={int(k): v for k, v in sc["holds"].items()}, preamble=("G91",) if rel else ())
     t["meta"]["hp"] = sc["hp"]
+    t["meta"]["rel"] = rel
     return t
 
 
@@ -59,7 +74,7 @@ def project(trace):
     ev, npri = [], 0
     for e in trace["ev"]:
         t = bytes(e["text"]).decode("ascii", "replace").strip()
-        z = {"k": e["k"], "n": 0, "cmd": 0, "bad": False, "kind": ""}
+        z = {"k": e["k"], "n": 0, "cmd": 0, "bad": False, "kind": "", "x": -1}
         if e["k"] == "tx":
             if t.startswith("N"):
                 try:
@@ -71,6 +86,12 @@ def project(trace):
             else:
                 npri += 1
                 z.update(n=-2, cmd=100 + npri)
+                if npri == 2 and t.startswith("G1 X"):          # resume(): "G1 X<pauseX> Y<pauseY>" -> command 200 + x
+                    try:
+                        x = int(round(float(t.split()[1][1:])))
+                    except ValueError:
+                        return None
+                    z.update(x=x, cmd=200 + x if trace["meta"].get("rel") and 0 <= x < 99 else 299)
         elif e["k"] == "rel":
             if t == "ok":
                 z.update(kind="ok")
@@ -81,7 +102,7 @@ def project(trace):
         elif e["k"] == "resume":
             npri = 0
         ev.append(z)
-    return {"ev": ev}
+    return {"ev": ev, "rel": bool(trace["meta"].get("rel"))}
 
 
 def validate(traces):
@@ -90,15 +111,16 @@ def validate(traces):
     for i, t in enumerate(traces):
         p = project(t)
         if p is not None:
-            groups.setdefault(tuple(t["meta"]["hp"]), []).append((i, p))
+            groups.setdefault((tuple(t["meta"]["hp"]), bool(t["meta"].get("rel"))), []).append((i, p))
     accepted, total, rejected, inv = 0, 0, [], []
-    for hp, items in sorted(groups.items()):
-        path = os.path.join(workdir(), "jobsconf_%s.json" % "_".join(map(str, hp or ("none",))))
+    for (hp, rel), items in sorted(groups.items()):
+        path = os.path.join(workdir(), "jobsconf_%s_%d.json" % ("_".join(map(str, hp or ("none",))), rel))
         write_json(path, [p for _, p in items])
         cfg = ("SPECIFICATION TSpec\nCONSTANTS\n NLines = %d\n NJobs = 2\n MaxCorrupt = 99\n MaxPauses = 99\n MaxCancels = 99\n"
-               " NRestore = 5\n HostPauseAt = {%s}\n PauseClearsSentlines = FALSE\n"
+               " NRestore = %d\n HostPauseAt = {%s}\n PauseClearsSentlines = FALSE\n ResendAnalysed = TRUE\n QuietPause = FALSE\n"
                "INVARIANT T_InOrder\nINVARIANT T_JobsInOrder\nINVARIANT T_Complete\nINVARIANT T_Restore\nINVARIANT T_NeverDies\n"
-               % (NL, ", ".join(map(str, hp))))
+               "INVARIANT T_ResumeReturns\n"
+               % (NL, 7 if rel else 5, ", ".join(map(str, hp))))
         r = tlc.validate("SenderJobsImplTrace", cfg, path, tag="jobsconf")
         if r.errors:
             raise flow.MachineryError("SenderJobsImplTrace failed: %s\n%s" % (r.errors[:2], r.stdout[-1500:]))
